@@ -213,4 +213,5 @@ func main() {
 	genBackupFn(repo, out)
 	genQuoteFn(repo, out)
 	genMtreeLine(repo, out)
+	genArchPkgver(repo, out)
 }
